@@ -426,7 +426,7 @@ func jvStrings(v JV, out *[]string) {
 	switch v.K {
 	case 's':
 		*out = append(*out, v.S)
-	case 'a':
+	case 'a', 'r':
 		for _, x := range v.A {
 			jvStrings(x, out)
 		}
